@@ -279,6 +279,13 @@ inductive HttpResp where
   | resp (status : Int) (body : Option Str)    -- `none`: reading the body failed
   deriving Repr, DecidableEq
 
+/-- acme/client.go `client.Get`, i.e. `http.Client.Get` with the default redirect policy, against a
+    host that answers after `redirects` redirects with `status` and `body`: a refused connection or a
+    tenth redirect is an error; otherwise the validator receives the final status and the *whole*
+    body the host sent (nothing is cut off, nothing is added). -/
+def clientGet (refused : Bool) (redirects : Nat) (status : Int) (body : Str) : HttpResp :=
+  if refused then .err else if redirects ≥ 10 then .err else .resp status (some body)
+
 def http01Validate (cfg : Cfg) (dbOk : Bool) (ch : Ch) (r : HttpResp) : Outcome :=
   let t := Target.httpGet (http01URL cfg ch)
   match r with
@@ -846,6 +853,11 @@ def getChallenge (h : Hash) (cfg : Cfg) (dbOk : Bool) (ch : Ch) (w : World) (req
     | .crash => .crash
     | .unmodelled => .val ⟨.ise, untouched ch⟩      -- not modelled (wire): never produced by the harness
     | .mismatch => .val ⟨.ise, untouched ch⟩
+
+/-- `Authorization.UpdateStatus` over the whole challenge list of the authorization: only a *valid*
+    challenge makes it valid — any number of invalid or pending ones leaves it as it is -/
+def authzUpdateStatusL (az : AzRec) (challenges : List Status) : Status :=
+  authzUpdateStatus az (challenges.any (· == .valid))
 
 /-- status of the authorization that owns the challenge after `api.GetAuthorization` (which runs
     `UpdateStatus`), and of the authorization named by the URL when it is another one -/
